@@ -159,7 +159,7 @@ func vcCall(c *connection, meth string, arg int) (out string) {
 	select {
 	case s := <-done:
 		return s
-	case <-time.After(800 * time.Millisecond):
+	case <-time.After(5 * time.Second):
 		return "hang"
 	}
 }
@@ -368,7 +368,7 @@ func VerifClosedMain(args []string) int {
 		select {
 		case r := <-ch:
 			return r
-		case <-time.After(8 * time.Second):
+		case <-time.After(20 * time.Second):
 			return "stuck"
 		}
 	}
